@@ -194,6 +194,37 @@ var unitStringsSec = []any{"5m30s", "1m 4s", "90s", "1H", "2 minutes", "1d1s", "
 	"1H5m5.5s", "1d2H3m4.25s", "2H30m0.5"}
 var unitStringsBytes = []any{"1kB", "1kB24B", "2 MB", "1024B", "1.5kB", "5 bytes", "1B1kB", "1GB1MB1kB1B"}
 
+// wrapUnitStrings: well-formed quantities whose count x multiplier (or running sum) leaves the 64-bit range by a whole
+// turn or more - the product is small and non-negative again modulo 2^64, so a sign test does not notice.
+func wrapUnitStrings(units string) []any {
+	var out []any
+	u := refUnitTable[units]
+	var ms []int64
+	for m := range u.mults {
+		ms = append(ms, m)
+	}
+	sort.Slice(ms, func(a, b int) bool { return ms[a] < ms[b] })
+	two64 := new(big.Int).Lsh(big.NewInt(1), 64)
+	for _, m := range ms {
+		name := u.mults[m][0]
+		// smallest count with count*m >= 2^64, and the counts around a second full turn
+		q := new(big.Int).Div(two64, big.NewInt(m))
+		for _, turn := range []int64{1, 2, 3} {
+			for _, d := range []int64{0, 1, 2} {
+				c := new(big.Int).Mul(q, big.NewInt(turn))
+				c.Add(c, big.NewInt(d))
+				if c.IsUint64() || c.BitLen() <= 64 {
+					out = append(out, c.String()+name, c.String()+" "+name+" 1"+u.base[0])
+				}
+			}
+		}
+		// the largest count that fits, and the first that does not
+		fit := new(big.Int).Div(big.NewInt(math.MaxInt64), big.NewInt(m))
+		out = append(out, fit.String()+name, new(big.Int).Add(fit, big.NewInt(1)).String()+name)
+	}
+	return out
+}
+
 // extremeNumbers are values at the edges of the numeric domains, in the representations they occur in.
 func extremeNumbers() []any {
 	return []any{
@@ -488,6 +519,9 @@ func RawValues(s *Spec) []any {
 		case "bytes":
 			out = append(out, unitStringsBytes...)
 		}
+		if s.Units != "" {
+			out = append(out, wrapUnitStrings(s.Units)...)
+		}
 		out = append(out, nil, []any{int64(1)}, map[string]any{"a": int64(1)})
 	case KFloat:
 		fs := []float64{0, 1, -1, 0.5}
@@ -513,6 +547,9 @@ func RawValues(s *Spec) []any {
 		out = append(out, extremeNumbers()...)
 		if s.Units == "sec" {
 			out = append(out, unitStringsSec...)
+		}
+		if s.Units != "" {
+			out = append(out, wrapUnitStrings(s.Units)...)
 		}
 		out = append(out, nil, []any{1.5})
 	case KString, KStrEnum, KTypedEnum:
